@@ -18,7 +18,7 @@ from ..errors import InvalidExchangeKeyError
 from ..rfc7517.models import CurveKey
 from ..rfc7517.pem import CryptographyBinding
 from ..rfc7517.types import KeyParameters
-from ..util import base64_to_int, int_to_base64
+from ..util import base64_to_int, urlsafe_b64encode
 from ..registry import KeyParameter
 
 __all__ = ['ECKey']
@@ -29,6 +29,13 @@ ECDictKey = t.TypedDict("ECDictKey", {
     "y": str,
     "d": str,  # optional
 }, total=False)
+
+
+def _coordinate_to_base64(num: int, key_size: int) -> str:
+    # RFC 7518, Sections 6.2.1.2, 6.2.1.3 and 6.2.2.1: the octet string MUST be the
+    # full size of a coordinate (or of the order) for the curve, leading zeros included
+    s = num.to_bytes((key_size + 7) // 8, "big", signed=False)
+    return urlsafe_b64encode(s).decode("utf-8", "strict")
 
 
 class ECBinding(CryptographyBinding):
@@ -69,11 +76,12 @@ class ECBinding(CryptographyBinding):
     @classmethod
     def export_private_key(cls, key: EllipticCurvePrivateKey) -> ECDictKey:
         numbers = key.private_numbers()
+        size = key.curve.key_size
         return {
             "crv": cls._curves_dss[key.curve.name],
-            "x": int_to_base64(numbers.public_numbers.x),
-            "y": int_to_base64(numbers.public_numbers.y),
-            "d": int_to_base64(numbers.private_value),
+            "x": _coordinate_to_base64(numbers.public_numbers.x, size),
+            "y": _coordinate_to_base64(numbers.public_numbers.y, size),
+            "d": _coordinate_to_base64(numbers.private_value, size),
         }
 
     @classmethod
@@ -89,10 +97,11 @@ class ECBinding(CryptographyBinding):
     @classmethod
     def export_public_key(cls, key: EllipticCurvePublicKey) -> ECDictKey:
         numbers = key.public_numbers()
+        size = numbers.curve.key_size
         return {
             "crv": cls._curves_dss[numbers.curve.name],
-            "x": int_to_base64(numbers.x),
-            "y": int_to_base64(numbers.y),
+            "x": _coordinate_to_base64(numbers.x, size),
+            "y": _coordinate_to_base64(numbers.y, size),
         }
 
 
